@@ -151,25 +151,32 @@ class BMRoles:
         if not ob.need(len(fs) == 1, "expected one FSM in BankMachine, found %d" % len(fs)):
             return
         self.fsm = fs[0]
-        self.gates = {}
-        for g in v.instances_of("tXXDController"):
-            arg = g.args[0] if g.args else g.kwargs.get("txxd")
-            role = None
-            if arg is not None:
-                if sup_has(arg, "tWR"):
-                    role = "tWTP"
-                elif isinstance(arg, Sym) and arg.path.endswith(".tRAS"):
-                    role = "tRAS"
-                elif isinstance(arg, Sym) and arg.path.endswith(".tRC"):
-                    role = "tRC"
-            if role:
-                self.gates[role] = g
-        if not ob.need(set(self.gates) == {"tWTP", "tRAS", "tRC"}, "timing gates of BankMachine not identified by their constructor "
-                       "arguments (found %s)" % sorted(self.gates)):
-            return
         cmdk = key(self.cmd)
+        # belief register: 1-bit sync register cleared under a single strobe C and set under ~C & O
+        self.belief = self.open = self.close = None
+        for k, ds in v.defs.items():
+            if len(ds) != 2 or any(l.domain != "sync" or l.inst != "" or l.kind != "assign" for l in ds):
+                continue
+            clr = [l for l in ds if is0(l.value)]
+            st = [l for l in ds if is1(l.value)]
+            if len(clr) != 1 or len(st) != 1:
+                continue
+            cg = v.guard_lits(clr[0], False)
+            sg = v.guard_lits(st[0], False)
+            if len(cg) == 1 and cg[0][1] and len(sg) == 2:
+                c = key(cg[0][0])
+                pos = [key(a) for a, p in sg if p]
+                neg = [key(a) for a, p in sg if not p]
+                if neg == [c] and len(pos) == 1:
+                    if self.belief is not None:
+                        ob.unknown("more than one row-opened style register found")
+                        return
+                    self.belief, self.open, self.close = st[0].target, pos[0], c
+        if not ob.need(self.belief is not None, "row-opened belief register / open and close strobes not identified"):
+            return
         self.sites = {}      # state -> role (ACT / PRE / COL)
         self.site_leaves = {}
+        self.site_strobes = {}
         for s in self.fsm.states:
             ls = v.fsm_leaves(self.fsm, s)
             val = v.asserted(ls, cmdk + ".valid")
@@ -179,35 +186,49 @@ class BMRoles:
             for nm in ("ras", "cas", "we"):
                 if v.asserted(ls, "%s.%s" % (cmdk, nm)):
                     strobes.add(nm)
-            role = {frozenset(["ras"]): "ACT", frozenset(["ras", "we"]): "PRE"}.get(frozenset(strobes))
-            if role is None and "cas" in strobes and "ras" not in strobes:
+            if v.asserted(ls, self.open):
+                role = "ACT"
+            elif v.asserted(ls, self.close):
+                role = "PRE"
+            else:
                 role = "COL"
-            if role is None:
-                ob.unknown("state %s presents cmd.valid with strobes %s: not a known command class" % (s, sorted(strobes)))
-                return
             self.sites[s] = role
             self.site_leaves[s] = val
+            self.site_strobes[s] = strobes
         if not ob.need(sorted(self.sites.values()) == ["ACT", "COL", "PRE"], "command sites of the bank FSM not identified: %s" % self.sites):
             return
-        # belief register, open / close strobes
-        act_state = [s for s, r in self.sites.items() if r == "ACT"][0]
-        act_asserted = {key(l.target) for l in v.fsm_leaves(self.fsm, act_state) if l.kind == "assign" and is1(l.value)}
-        self.belief = self.open = self.close = None
-        for l in v.leaves:
-            if l.kind == "assign" and l.domain == "sync" and l.inst == "" and is1(l.value):
-                pos = [key(a) for a, p in v.guard_lits(l, False) if p]
-                neg = [key(a) for a, p in v.guard_lits(l, False) if not p]
-                hit = [k for k in pos if k in act_asserted]
-                if hit:
-                    self.belief, self.open = l.target, hit[0]
-                    clr = [m for m in v.drivers(l.target) if is0(m.value)]
-                    if len(clr) == 1:
-                        cl = [key(a) for a, p in v.guard_lits(clr[0], False) if p]
-                        if len(cl) == 1:
-                            self.close = cl[0]
-        if not ob.need(self.belief is not None and self.close is not None, "row-opened belief register / close strobe not identified"):
-            return
         self.closing_states = [s for s in self.fsm.states if v.asserted(v.fsm_leaves(self.fsm, s), self.close)]
+        # timing gates: role by use (which sites wait for them), parameter checked separately (C03.4)
+        self.gates = {}
+        self.gate_arg = {}
+        allg = v.instances_of("tXXDController")
+        used_close = []
+        used_act = []
+        for g in allg:
+            rk = key(g.attrs["ready"])
+            for st in self.closing_states:
+                if any(rk in v.guard_keys(l) for l in v.fsm_leaves(self.fsm, st)) and g not in used_close:
+                    used_close.append(g)
+            for st, r in self.sites.items():
+                if r == "ACT" and any(rk in v.guard_keys(l) for l in self.site_leaves[st]) and g not in used_act:
+                    used_act.append(g)
+        for g in allg:
+            arg = g.args[0] if g.args else g.kwargs.get("txxd")
+            self.gate_arg[g] = arg
+            if arg is not None and sup_has(arg, "tWR"):
+                self.gates["tWTP"] = g
+        rest = [g for g in used_close if g is not self.gates.get("tWTP")]
+        if len(rest) == 1:
+            self.gates["tRAS"] = rest[0]
+        if len(used_act) == 1:
+            self.gates["tRC"] = used_act[0]
+        for g in allg:      # fall back to the constructor argument
+            arg = self.gate_arg[g]
+            for n in ("tRAS", "tRC"):
+                if n not in self.gates and isinstance(arg, Sym) and arg.path.endswith("." + n) and g not in self.gates.values():
+                    self.gates[n] = g
+        if not ob.need(set(self.gates) == {"tWTP", "tRAS", "tRC"}, "timing gates of BankMachine not identified (found %s)" % sorted(self.gates)):
+            return
         self.edges, self.delayed = fsm_graph(v, self.fsm)
         self.ok = True
 
@@ -368,6 +389,15 @@ def gate_params(ctx):
                       "waited out before the datasheet interval starts)" % (what, key(arg), " + ".join(names)), loc)
 
     seen = {}
+    R = BMRoles(ctx, ob)
+    if R.ok:
+        for role in ("tRAS", "tRC"):
+            arg = R.gate_arg[R.gates[role]]
+            ob.instance("BankMachine gate in the %s role (by the sites that wait for it)" % role, {"parameter": key(arg)})
+            if not (isinstance(arg, Sym) and arg.path == "settings.timing." + role):
+                ob.refute("role-param:" + role, "the gate that %s is built from %s, expected settings.timing.%s" %
+                          ("guards precharges" if role == "tRAS" else "guards ACT", key(arg), role), R.gates[role].loc)
+                seen[role] = 1
     for view, where in ((v, "BankMachine"), (m, "Multiplexer")):
         for g in view.instances_of("tXXDController") + view.instances_of("tFAWController"):
             arg = g.args[0] if g.args else None
